@@ -8,7 +8,7 @@ DESCRIPTION = {
              "UNSUBSCRIBED/ERROR replies in any order, EVENTs for live ids, for ids with an unsubscribe in flight and for ids never held, with all payload shapes and optional "
              "publisher/topic details; handler behaviours {return, raise, return a pending result, unsubscribe itself, unsubscribe a sibling during the callback}.  Oracle = "
              "model id -> ordered list of attached handlers: on each EVENT exactly the handlers in the model at arrival are invoked once each, in subscription order, with exactly "
-             "the published args/kwargs (no keys added by another handler's details) and EventDetails iff requested; a raising handler stops nothing and nothing escapes "
+             "the published args/kwargs (no keys added by another handler's details) and EventDetails iff requested, whose .subscription is that handler's own Subscription object; a raising handler stops nothing and nothing escapes "
              "onMessage; no handler is invoked after its unsubscribe() returned; UNSUBSCRIBE is written exactly when a handler list becomes empty; events for an id whose removal "
              "is in flight are dropped silently; for a never-held id ProtocolError.  Non-trivial = >=2 handlers on one id with an unsubscribe or raising handler between two "
              "events; distinct by history digest."),
